@@ -257,6 +257,7 @@ func c10AfterRestart(rep *vrep.Report, wl *c10Workload, P *party, state *memDS, 
 	R.ds.log = &log2
 	boundary2 := []int{}
 	reissueFailed := false
+	logOpenAfterRestart := false
 	for j := i; j < len(wl.Ops); j++ {
 		boundary2 = append(boundary2, len(log2))
 		_, err := wl.Ops[j].Run(R)
@@ -283,10 +284,20 @@ func c10AfterRestart(rep *vrep.Report, wl *c10Workload, P *party, state *memDS, 
 				}
 			}
 		}
+		if err == nil && wl.Ops[j].Kind == "open" {
+			logOpenAfterRestart = true
+		}
 		if err != nil {
 			reissueFailed = true
 			if wl.Ops[j].Kind == "reg" || (wl.Ops[j].Kind == "open" && (openable[wl.Ops[j].Msg] || ack[wl.Ops[j].Msg])) {
 				viol("continuation-failed", fmt.Sprintf("operation %s fails after restart: %v", wl.Ops[j].Name, err))
+			} else if wl.Ops[j].Kind == "push" && len(crashes) == 1 && logOpenAfterRestart && wl.probe(P, R.ds, wl.Msgs[wl.Ops[j].Msg]).ok {
+				// the store stays usable for the push path: once a message of the sender has gone through the log
+				// after the restart (which rebuilds the sender's reference window), a push payload that opens at this
+				// point of the crash-free run opens here too. (Before that first log open the current code may refuse
+				// pushes when the stop fell between the chain-key write and the reference update of a registration:
+				// recorded as an observation, the statement of C10 does not cover it.)
+				viol("push-open-lost-after-restart", fmt.Sprintf("operation %s (succeeds in the crash-free run; the same message opens through the log and a log open has rebuilt the reference window since the restart) fails: %v", wl.Ops[j].Name, err))
 			} else {
 				rep.Add("continuation_ops_failing_after_crash_not_required", 1)
 			}
